@@ -401,3 +401,18 @@ for _p in ("C09", "C04"):
     PROPS[_p]["jobs"]["thorough"] += [J("c09", c, depth=80, deadline=600, opts={"cbmode": 1}) for c in (0, 4)]
     PROPS[_p]["text"] += " An NMT exploration (c09 cbmode=1) in which the application calls CONmtSetMode(CO_STOP) from inside the mode-change callback that announces OPERATIONAL is part of the check: whichever request wins, the mode the node reports and the gate in front of every service (SDO answered in PRE-OPERATIONAL and OPERATIONAL only) have to agree."
 PROPS["C02"]["text"] += " In the two-server interleavings the second participant can also be the application switching server 1 off (1201h:1) at every position of the transfer on server 0."
+PROPS["C15"]["jobs"]["quick"] += [J("c15", 2, defs=E8, depth=40, deadline=100, opts={"cbemcy": 1})]
+PROPS["C15"]["jobs"]["thorough"] += [J("c15", c, defs=E8, depth=40, deadline=600, opts={"cbemcy": 1}) for c in (2, 7)]
+PROPS["C15"]["text"] += " One configuration runs once more with an application that sets or clears error 0 from inside its mode-change callback (cbemcy=1), while CONmtGetMode() still names the state the node is leaving: whether a frame goes out is decided by that reported state."
+# the PDO reconfiguration exploration with both PDOs of a pair synchronous also decides C13's "a synchronous RPDO takes effect at the next SYNC" after the TPDO of the same number was re-configured
+PROPS["C13"]["jobs"]["quick"] += [J("c14", 7, depth=5, deadline=100)]
+PROPS["C13"]["jobs"]["thorough"] += [J("c14", c, depth=7, deadline=600, max_states=20000000) for c in (6, 7)]
+PROPS["C13"]["text"] += " The PDO reconfiguration exploration of C14 in which RPDO and TPDO of one number are both synchronous is part of the check: after every accepted COB-ID write of the TPDO the RPDO of the same number is probed (frame, SYNC, mapped objects)."
+PROPS["C14"]["text"] += " After every accepted COB-ID write of the TPDO the RPDO of the same number is probed, too."
+PROPS["C20"]["text"] += " The histories also contain a tick of which only the interrupt part was served (COTmrService without COTmrProcess): the reset then meets timers that have elapsed but not run."
+PROPS["C12"]["jobs"]["quick"] += [J("c12", c, depth=7, deadline=100, allow_dead=True, opts={"cbtrig": 1}) for c in (3, 4)]
+PROPS["C12"]["jobs"]["thorough"] += [J("c12", c, depth=9, deadline=600, allow_dead=True, opts={"cbtrig": 1}) for c in (3, 4, 5, 13)]
+PROPS["C12"]["text"] += " Two configurations with an inhibit time run once more with an application that triggers TPDO0 again from inside the COPdoTransmit callback of a TPDO0 frame (cbtrig=1): the new trigger waits for the end of the inhibit time which that very transmission started, and is not lost."
+PROPS["C18"]["jobs"]["quick"] += [J("c18", c, depth=6, deadline=60, opts={"nostart": 1}) for c in (0, 1)]
+PROPS["C18"]["jobs"]["thorough"] += [J("c18", c, depth=8, deadline=600, max_states=20000000, opts={"nostart": 1}) for c in (0, 1, 2)]
+PROPS["C18"]["text"] += " Two configurations run once more on a node that is initialised but not started (nostart=1): LSS is served there, the application resets the communication through the API (CONmtReset) before and after CONodeStart, and the stored configuration has to be the active one after each reset - shown by Node.NodeId before the start and by the boot-up message at CONodeStart."
